@@ -15,7 +15,7 @@ LEVEL_TEXT = ('Decides the parts of the property that are visible in source: eve
 LEVEL_NOTE = ('Trusted: Cython-subset front-end, interpreter, class-level transfer functions of libm (sqrt, hypot, log, atan2, copysign per C99 Annex F), float() of a decimal literal is correctly rounded (as strtod). '
               'Not decided: ulp-level accuracy and overflow thresholds for finite arguments.')
 EXPLANATION = ('R20.1 double-factorial literals and index guard; R20.4 integer powers; R20.5 legacy _sqrt_neg_python == principal root; '
-               'R20.6 cf_build_dblcmplx writes (re, im) to slots (0, 1); R20.2 Annex G class tables; R20.7 defining identities on every finite-argument path; R20.8 module constants.')
+               'R20.6 cf_build_dblcmplx writes (re, im) to slots (0, 1); R20.2 Annex G class tables; R20.7 defining identities on every finite-argument path; R20.8 module constants; R20.9 exponent ranges of the intermediates of the interpreted square root over all finite doubles.')
 
 
 def dfact(n):
@@ -198,6 +198,8 @@ def run(chk):
     chk.floor('R20.7', 2)
     constants(chk, repo)
     chk.floor('R20.8', 7)
+    legacy_sqrt_ranges(chk, repo)
+    chk.floor('R20.9', 2)
     chk.floor('R20.1', 50); chk.floor('R20.4', 10); chk.floor('R20.5', 21)
 
     from . import c20_annexg
@@ -390,3 +392,89 @@ def constants(chk, repo):
     kd = lits.get('SCALED_CEXP_K_D')
     chk.ob('R20.8', 'SCALED_CEXP_K_D == 1799 (the double-precision scaling exponent of the reference implementation)', isinstance(kd, ast.Constant) and kd.value == 1799, f'{ast.unparse(kd) if kd is not None else None}',
            mc.where(kd) if kd is not None else mc.rel(), key='R20.8|SCALED_CEXP_K_D', method='AST')
+
+
+# ------------------------------------------------------------------------------------------------ R20.9 exponent ranges of intermediates
+def exponent_hazards(node, env):
+    """Abstract interpretation of an extracted expression in the domain of binary exponents: every sub-expression gets an interval [lo, hi] of log2|value| over the inputs' ranges
+    (`env`: atom name -> (lo, hi) for non-zero values).  Returned: the products / powers / sums whose interval leaves the range of finite doubles -- an intermediate that
+    overflows (or is flushed to zero) although the inputs, and the mathematical result, are representable."""
+    import math
+    MAXE, MINE = 1024.0, -1074.0
+    memo = {}
+    hazards = []
+
+    def rng(n):
+        r = memo.get(n.uid)
+        if r is not None or n.uid in memo: return r
+        r = None
+        if n.op == 'const':
+            v = n.val
+            try:
+                a_ = abs(complex(v)) if isinstance(v, complex) else abs(float(v))
+            except Exception:
+                a_ = None
+            r = None if not a_ else (math.log2(a_), math.log2(a_))
+        elif n.op == 'atom':
+            r = env.get(n.val[0])
+        elif n.op == 'I':
+            r = (0.0, 0.0)
+        elif n.op == 'mul':
+            parts = [rng(a) for a in n.args]
+            if all(p is not None for p in parts):
+                r = (sum(p[0] for p in parts), sum(p[1] for p in parts))
+        elif n.op == 'div':
+            a, b = rng(n.args[0]), rng(n.args[1])
+            if a is not None and b is not None: r = (a[0] - b[1], a[1] - b[0])
+        elif n.op == 'powi':
+            a = rng(n.args[0])
+            if a is not None:
+                k = n.val
+                r = (min(k * a[0], k * a[1]), max(k * a[0], k * a[1]))
+        elif n.op == 'add':
+            parts = [rng(a) for a in n.args]
+            known = [p for p in parts if p is not None]
+            if known and len(known) == len(parts):
+                r = (-math.inf, max(p[1] for p in known) + math.log2(len(known)))      # terms may cancel: no lower bound
+        elif n.op == 'fn':
+            a = rng(n.args[0]) if n.args else None
+            if n.val == 'sqrt' and a is not None: r = (a[0] / 2 if a[0] != -math.inf else -math.inf, a[1] / 2)
+            elif n.val in ('abs', 'real', 'imag', 'conj') and a is not None: r = (-math.inf if n.val in ('real', 'imag') else a[0], a[1])
+            elif n.val == 'abs2' and a is not None: r = (2 * a[0], 2 * a[1])
+            elif n.val == 'sign': r = (0.0, 0.0)
+        elif n.op == 'cmp':
+            for a in n.args: rng(a)
+            r = (0.0, 0.0)
+        # (sums are not reported: x + y overflows only within one binade of the largest double, which is the rounding question this rule leaves alone)
+        if r is not None and (n.op in ('mul', 'powi') or (n.op == 'fn' and n.val == 'abs2')) and not any(a.op == 'I' for a in n.args):
+            over = r[1] > MAXE
+            under = r[0] < MINE
+            if over or under:
+                hazards.append((n, r, 'overflows' if over else 'is flushed to zero', 'above 2^1024' if over else 'below 2^-1074'))
+                r = (max(r[0], MINE), min(r[1], MAXE))        # report the first place only: clamp and go on
+        memo[n.uid] = r
+        return r
+    rng(node)
+    # innermost first, one entry per distinct sub-expression text
+    out = []; seen = set()
+    for n, r, what, where in hazards:
+        t = X.show(n)[:60]
+        if t not in seen:
+            seen.add(t); out.append((t, what, where))
+    return out
+
+
+def legacy_sqrt_ranges(chk, repo):
+    """the interpreted square root on the whole range of finite doubles: |Re z|, |Im z| anywhere between the smallest subnormal and the largest finite double.  Every finite z has a
+    representable root (|sqrt z| <= 1.4e154), so an intermediate that overflows or is flushed to zero loses a result that exists."""
+    mp = repo.by_path('TidalPy/utilities/math/special.py')
+    fpy = need_func(mp, '_sqrt_neg_python')
+    full = (-1074.0, 1023.999)
+    for is_real, lab in ((True, 'is_real=True (real argument)'), (False, 'is_real=False (complex argument)')):
+        zr = X.atom('z_re'); zi = X.atom('z_im')
+        z = zr if is_real else zr + X.I * zi
+        val = Interp(repo).call(mp, fpy, [z], {'is_real': is_real})
+        hz = exponent_hazards(X.lift(val), {'z_re': full, 'z_im': full})
+        chk.ob('R20.9', f'_sqrt_neg_python, {lab}: no intermediate overflows or is flushed to zero for finite non-zero arguments (the root of every finite double is representable)', not hz,
+               '; '.join(f'`{t}` {what} ({where}) for arguments at the ends of the exponent range' for t, what, where in hz[:2]), mp.where(fpy),
+               key=f'R20.9|_sqrt_neg_python|{"real" if is_real else "complex"}', method='interval analysis of binary exponents over the extracted expression')
